@@ -13,6 +13,11 @@
 (*                                                                                                      *)
 (* TLC enumerates every item sequence over an alphabet up to a length (a plan = several such stages)   *)
 (* and emits it with the expected layout and contents; harness/c14_data.c builds it through the API.   *)
+(* Sequences with string items are emitted in two forms: "api" (MIR_new_string_data: exactly the       *)
+(* str.len declared bytes) and "text" (the module is printed as MIR text and read by MIR_scan_string:  *)
+(* `string "..."` holds the characters and a terminating zero).                                        *)
+(* Named deviation DevTextStringTerminator: the scanner adds no terminating zero when the string is    *)
+(* empty or its last character already is a zero (MIR.md is silent); the text form follows the code.   *)
 EXTENDS Integers, Sequences, FiniteSets, TLC, Json, Emit, IOUtils
 
 CONSTANTS Plan        \* sequence of stages [alpha, maxLen, minEmit]; alpha is a set of items
@@ -21,8 +26,8 @@ VARIABLES stage, items
 vars == <<stage, items>>
 
 (* ------------------------------ items ------------------------------------------------------------ *)
-(* k: "data" "bss" "ref" "lref" "expr" "proto";  nm: named;  t: element / result type;  n: number of   *)
-(* elements (data) or length (bss);  tg: ref target;  d: displacement;  l1, l2: labels (l2 = 0: none)   *)
+(* k: "data" "bss" "ref" "lref" "expr" "str" "proto";  nm: named;  t: element / result type;  n: number *)
+(* of elements (data), length (bss) or index into StrPayloads (str);  tg: ref target;  d: displacement;  l1, l2: labels (l2 = 0: none)   *)
 It(k, nm, t, n, tg, d, l1, l2) == [k |-> k, nm |-> nm, t |-> t, n |-> n, tg |-> tg, d |-> d, l1 |-> l1, l2 |-> l2]
 Types == {"i8", "u8", "i16", "u16", "i32", "u32", "i64", "u64", "f", "d", "ld", "p"}
 TSize(t) == CASE t \in {"i8", "u8"} -> 1 [] t \in {"i16", "u16"} -> 2 [] t \in {"i32", "u32", "f"} -> 4
@@ -38,23 +43,31 @@ Ref(tds) == {It("ref", nm, "", 0, td[1], td[2], 0, 0) : nm \in BOOLEAN, td \in t
 LRef(ls) == {It("lref", nm, "", 0, "", l[3], l[1], l[2]) : nm \in BOOLEAN, l \in ls}
 Expr(ts) == {It("expr", nm, t, 0, "", 0, 0, 0) : nm \in BOOLEAN, t \in ts}
 Proto == It("proto", TRUE, "", 0, "", 0, 0, 0)         \* any non-data item ends a section
+(* string data: declared characters; zeros at the start, in the middle, at the end; every byte value once *)
+StrPayloads == << <<>>, <<0>>, <<120>>, <<0, 98, 99>>, <<97, 0, 99>>, <<97, 98, 0>>,
+                  <<97, 98, 0, 99, 100>>, <<0, 0, 97, 0, 0>>, <<97, 98, 99, 100, 0>>, [j \in 1..256 |-> j - 1] >>
+Str(ids, nms) == {It("str", nm, "", n, "", 0, 0, 0) : nm \in nms, n \in ids}
 
 AlphaFull ==
   Data(Types, {0, 1, 3}) \cup Bss({0, 1, 9})
   \cup Ref({<<"prev", 0>>, <<"prev", 5>>, <<"next", 0>>, <<"next", -3>>, <<"ext", 5>>, <<"mod", -3>>, <<"func", 0>>, <<"func", 5>>})
   \cup LRef({<<1, 0, 0>>, <<2, 0, 7>>, <<3, 1, 0>>, <<1, 2, -4>>})
   \cup Expr({"i8", "i16", "i32", "i64", "f", "d", "ld"}) \cup {Proto}
+  \cup Str(1..9, BOOLEAN) \cup Str({10}, {TRUE})
 AlphaWide ==      \* every element type once, the three lengths for three sizes, everything else as in AlphaFull
-  Data(Types, {1}) \cup Data({"i8", "i16", "ld"}, {0, 3}) \cup (AlphaFull \ Data(Types, {0, 1, 3}))
+  Data(Types, {1}) \cup Data({"i8", "i16", "ld"}, {0, 3}) \cup (AlphaFull \ (Data(Types, {0, 1, 3}) \cup Str(1..10, BOOLEAN)))
+  \cup Str({1, 7}, BOOLEAN)
 AlphaMid ==
   {It("data", nm, t, n, "", 0, 0, 0) : nm \in BOOLEAN, t \in {"i8"}, n \in {1}}
   \cup {It("data", nm, "i16", 3, "", 0, 0, 0) : nm \in BOOLEAN} \cup {It("data", nm, "i64", 0, "", 0, 0, 0) : nm \in BOOLEAN}
   \cup {It("data", nm, "ld", 1, "", 0, 0, 0) : nm \in BOOLEAN}
   \cup Bss({0, 9}) \cup Ref({<<"prev", 5>>, <<"next", 0>>}) \cup LRef({<<2, 1, 7>>}) \cup Expr({"i32"}) \cup {Proto}
+  \cup Str({5}, BOOLEAN)
 AlphaSmall ==
   {It("data", nm, "i8", 3, "", 0, 0, 0) : nm \in BOOLEAN} \cup {It("bss", nm, "", 1, "", 0, 0, 0) : nm \in BOOLEAN}
   \cup {It("ref", FALSE, "", 0, "next", 0, 0, 0), It("ref", TRUE, "", 0, "prev", -3, 0, 0)}
   \cup {It("expr", FALSE, "i16", 0, "", 0, 0, 0), It("lref", FALSE, "", 0, "", 0, 3, 0)} \cup {Proto}
+  \cup Str({7}, {FALSE})
 
 Stage(a, mx, mn) == [alpha |-> a, maxLen |-> mx, minEmit |-> mn]
 PlanQuick == <<Stage(AlphaFull, 2, 1), Stage(AlphaMid, 3, 3)>>
@@ -62,21 +75,23 @@ PlanWide3 == <<Stage(AlphaWide, 3, 3)>>
 PlanDeep == <<Stage(AlphaMid, 4, 4), Stage(AlphaSmall, 5, 4)>>
 
 (* ------------------------------ layout ------------------------------------------------------------ *)
+(* f is the form: "api" or "text" (only the length of string items depends on it)                        *)
 IsData(it) == it.k # "proto"
-ItemLen(it) == CASE it.k = "data" -> it.n * TSize(it.t) [] it.k = "bss" -> it.n [] it.k \in {"ref", "lref"} -> PtrSize
-                 [] it.k = "expr" -> TSize(it.t) [] OTHER -> 0
+StrBytes(it, f) == LET pl == StrPayloads[it.n] IN
+                   IF f = "text" /\ Len(pl) > 0 /\ pl[Len(pl)] # 0 THEN Append(pl, 0) ELSE pl   \* DevTextStringTerminator
+ItemLen(it, f) == CASE it.k = "data" -> it.n * TSize(it.t) [] it.k = "bss" -> it.n [] it.k \in {"ref", "lref"} -> PtrSize
+                    [] it.k = "expr" -> TSize(it.t) [] it.k = "str" -> Len(StrBytes(it, f)) [] OTHER -> 0
 (* item i starts a section: a data-like item that is the first one, or named, or preceded by a non-data item *)
 Starts(s, i) == IsData(s[i]) /\ (i = 1 \/ s[i].nm \/ ~IsData(s[i - 1]))
 Max(S) == CHOOSE x \in S : \A y \in S : y <= x
 SecHead(s, i) == IF IsData(s[i]) THEN Max({j \in 1..i : Starts(s, j)}) ELSE 0
-RECURSIVE SumLen(_, _, _)
-SumLen(s, lo, hi) == IF lo > hi THEN 0 ELSE ItemLen(s[lo]) + SumLen(s, lo + 1, hi)
-Off(s, i) == IF IsData(s[i]) THEN SumLen(s, SecHead(s, i), i - 1) ELSE 0
+RECURSIVE SumLen(_, _, _, _)
+SumLen(s, lo, hi, f) == IF lo > hi THEN 0 ELSE ItemLen(s[lo], f) + SumLen(s, lo + 1, hi, f)
+Off(s, i, f) == IF IsData(s[i]) THEN SumLen(s, SecHead(s, i), i - 1, f) ELSE 0
 Members(s, h) == {i \in 1..Len(s) : SecHead(s, i) = h}
-SecSize(s, h) == SumLen(s, h, Max(Members(s, h)))           \* members are consecutive
+SecSize(s, h, f) == SumLen(s, h, Max(Members(s, h)), f)           \* members are consecutive
 Heads(s) == {i \in 1..Len(s) : Starts(s, i)}
-Layout(s) == [i \in 1..Len(s) |-> <<SecHead(s, i), Off(s, i), ItemLen(s[i])>>]
-Sections(s) == [h \in Heads(s) |-> [size |-> SecSize(s, h), n |-> Cardinality(Members(s, h))]]
+Layout(s, f) == [i \in 1..Len(s) |-> <<SecHead(s, i), Off(s, i, f), ItemLen(s[i], f)>>]
 
 (* ------------------------------ contents ----------------------------------------------------------- *)
 Payload(i, len) == [j \in 1..len |-> (i * 37 + j * 11 + 5) % 256]      \* the declared bytes of data item i
@@ -90,34 +105,38 @@ ExprBytes(t) ==                                                          \* valu
     [] t = "ld" -> <<0, 0, 0, 0, 0, 0, 0, 192, 255, 63>>                  \* 1.5L: the 10 value bytes of the x87 format
 (* expected contents of item i: <<"b", bytes>>, <<"z">>, <<"r", kind, index, disp>>, <<"l", l1, l2, disp>>, <<"p">> *)
 Target(s, i) == CASE s[i].tg = "prev" -> <<"item", i - 1>> [] s[i].tg = "next" -> <<"item", i + 1>> [] OTHER -> <<s[i].tg, 0>>
-Contents(s, i) ==
-  CASE s[i].k = "data" -> <<"b", Payload(i, ItemLen(s[i]))>>
+Contents(s, i, f) ==
+  CASE s[i].k = "data" -> <<"b", Payload(i, ItemLen(s[i], f))>>
+    [] s[i].k = "str" -> <<"b", StrBytes(s[i], f)>>
     [] s[i].k = "bss" -> <<"z">>
     [] s[i].k = "ref" -> <<"r", Target(s, i)[1], Target(s, i)[2], s[i].d>>
     [] s[i].k = "expr" -> <<"b", ExprBytes(s[i].t)>>
     [] s[i].k = "lref" -> <<"l", s[i].l1, s[i].l2, s[i].d>>
     [] OTHER -> <<"p">>
+(* the bytes a string item is declared with (API: str.s/str.len; text: the characters between the quotes) *)
+Declared(s, i) == IF s[i].k = "str" THEN StrPayloads[s[i].n] ELSE <<>>
 
 WF(s) == \A i \in 1..Len(s) :
   /\ (s[i].k = "ref" /\ s[i].tg = "prev") => i > 1 /\ IsData(s[i - 1])
   /\ (s[i].k = "ref" /\ s[i].tg = "next") => i < Len(s) /\ IsData(s[i + 1]) /\ s[i + 1].nm
+HasStr(s) == \E i \in 1..Len(s) : s[i].k = "str"
 
 (* ------------------------------ model properties (checked on every emitted sequence) -------------- *)
 (* sections are consecutive runs, partition the data-like items, offsets are gap-free and in order      *)
-LayoutSane ==
-  LET s == items IN
+LayoutSaneF(s, f) ==
   /\ \A i \in 1..Len(s) : IsData(s[i]) =>
        /\ SecHead(s, i) \in Heads(s) /\ SecHead(s, i) <= i
        /\ \A j \in SecHead(s, i)..i : IsData(s[j]) /\ SecHead(s, j) = SecHead(s, i)
-       /\ (i > SecHead(s, i) => ~s[i].nm /\ Off(s, i) = Off(s, i - 1) + ItemLen(s[i - 1]))
-       /\ Off(s, i) + ItemLen(s[i]) <= SecSize(s, SecHead(s, i))
-  /\ \A h \in Heads(s) : Off(s, h) = 0 /\ (h > 1 /\ IsData(s[h - 1]) => s[h].nm)
+       /\ (i > SecHead(s, i) => ~s[i].nm /\ Off(s, i, f) = Off(s, i - 1, f) + ItemLen(s[i - 1], f))
+       /\ Off(s, i, f) + ItemLen(s[i], f) <= SecSize(s, SecHead(s, i), f)
+  /\ \A h \in Heads(s) : Off(s, h, f) = 0 /\ (h > 1 /\ IsData(s[h - 1]) => s[h].nm)
+LayoutSane == LayoutSaneF(items, "api") /\ LayoutSaneF(items, "text")
 
 (* ------------------------------ enumeration -------------------------------------------------------- *)
 Part == IF "PART" \in DOMAIN IOEnv THEN atoi(IOEnv.PART) ELSE 0
 NParts == IF "NPARTS" \in DOMAIN IOEnv THEN atoi(IOEnv.NPARTS) ELSE 1
-KindNo(it) == CASE it.k = "data" -> 0 [] it.k = "bss" -> 1 [] it.k = "ref" -> 2 [] it.k = "lref" -> 3 [] it.k = "expr" -> 4 [] OTHER -> 5
-Key(it) == ItemLen(it) * 7 + (IF it.nm THEN 3 ELSE 0) + it.d + 16 + it.l1 * 5 + it.n + KindNo(it) * 13
+KindNo(it) == CASE it.k = "data" -> 0 [] it.k = "bss" -> 1 [] it.k = "ref" -> 2 [] it.k = "lref" -> 3 [] it.k = "expr" -> 4 [] it.k = "str" -> 6 [] OTHER -> 5
+Key(it) == ItemLen(it, "api") * 7 + (IF it.nm THEN 3 ELSE 0) + it.d + 16 + it.l1 * 5 + it.n + KindNo(it) * 13
 InPart(s) == Part = 0 \/ Len(s) = 0 \/ (Key(s[1]) % NParts) + 1 = Part
 
 Init == stage \in 1..Len(Plan) /\ items = <<>>
@@ -127,9 +146,13 @@ Next == /\ Len(items) < Plan[stage].maxLen
         /\ UNCHANGED stage
 
 ItemT(it) == <<it.k, IF it.nm THEN 1 ELSE 0, it.t, it.n, it.tg, it.d, it.l1, it.l2>>
-Case(s) == [it |-> [i \in 1..Len(s) |-> ItemT(s[i])],
-            lay |-> Layout(s),
-            secs |-> [i \in 1..Len(s) |-> IF Starts(s, i) THEN <<SecSize(s, i), Cardinality(Members(s, i))>> ELSE <<>>],
-            exp |-> [i \in 1..Len(s) |-> Contents(s, i)]]
-Emit == (Len(items') >= Plan[stage].minEmit /\ WF(items')) => EmitJ(Case(items'))
+Case(s, f) == [form |-> f,
+               it |-> [i \in 1..Len(s) |-> ItemT(s[i])],
+               lay |-> Layout(s, f),
+               secs |-> [i \in 1..Len(s) |-> IF Starts(s, i) THEN <<SecSize(s, i, f), Cardinality(Members(s, i))>> ELSE <<>>],
+               exp |-> [i \in 1..Len(s) |-> Contents(s, i, f)],
+               decl |-> [i \in 1..Len(s) |-> Declared(s, i)]]
+Emit == (Len(items') >= Plan[stage].minEmit /\ WF(items')) =>
+          /\ EmitJ(Case(items', "api"))
+          /\ (HasStr(items') => EmitJ(Case(items', "text")))
 =============================================================================
